@@ -12,16 +12,60 @@ Theorem C13_wellformed_tree :
 Proof.
   intros E skipped schema T sh out H. unfold visualize in H.
   destruct (visualize_stream E skipped schema T) as [st|e]; [|discriminate].
-  cbn [bind] in H. destruct (traverse_all_wellformed sh st out H) as [r [rest [rs [A [_ B]]]]].
+  cbn [bind] in H. destruct (traverse_all_wellformed sh st out H) as [r [rest [rs [A [_ [B _]]]]]].
   exists r, rest. split; assumption.
 Qed.
 Print Assumptions C13_wellformed_tree.
 
-(* rows shown under a filter are exactly rows the filter admits (the root is always shown) *)
+(* mode-independent well-formedness of _traverse_tree (hidden_level, D24 repaired): on EVERY row stream that is a
+   pre-order walk -- each row at most one level below its predecessor, p being the level of the row consumed last -- and
+   from every state (prev_level, hidden_level) satisfying the loop invariant tinv (nothing hidden: the row consumed last is
+   the row printed last; else the hidden row lies at most one level below the row printed last), it never raises the
+   level-difference ValueError whatever the filter hides (it raises only what the generator raised), and what it prints is
+   again such a stream.  In particular from the initial state after the root row. *)
+Theorem C13_preorder_never_raises :
+  (forall sh rows p prev hidden tail, chain p rows -> tinv prev hidden p ->
+     traverse sh prev hidden rows tail = match tail with Some e => Raise e | None => Ok (shown sh hidden rows) end
+     /\ chain prev (shown sh hidden rows))
+  /\ (forall sh st r rs, fst st = r :: rs -> chain (r_level r) rs ->
+       traverse_all sh st = match snd st with Some e => Raise e | None => Ok (r :: shown sh None rs) end
+       /\ chain (r_level r) (shown sh None rs)).
+Proof. split; [exact traverse_preorder|exact traverse_all_preorder]. Qed.
+Print Assumptions C13_preorder_never_raises.
+
+(* rows shown under a filter (the root is always shown): whenever _traverse_tree completes, on ANY row list, the generator
+   did not raise, the output is `shown` of the rows -- a row below the row hidden last is dropped whatever its own
+   visibility; any other row is printed iff the filter admits it, and is the row hidden last otherwise -- hence every
+   printed row is a row of the stream that the filter admits *)
 Theorem C13_filter_respected :
-  forall sh prev rows tail out, traverse sh prev rows tail = Ok out -> Forall (fun r => visible sh r = true) out.
-Proof. intros sh prev rows. revert prev. apply traverse_visible. Qed.
+  forall sh prev hidden rows tail out, traverse sh prev hidden rows tail = Ok out ->
+    tail = None /\ out = shown sh hidden rows
+    /\ Forall (fun r => visible sh r = true) out /\ (forall x, In x out -> In x rows).
+Proof.
+  intros sh prev hidden rows tail out H. destruct (traverse_shown sh rows prev hidden tail out H) as [A [B _]].
+  split; [exact A|]. split; [exact B|]. split; [eapply traverse_visible; exact H|].
+  intros x Hx. rewrite B in Hx. exact (proj1 (shown_In sh x rows hidden Hx)).
+Qed.
 Print Assumptions C13_filter_respected.
+
+(* ... and on a pre-order forest f (first child / next sibling) whose top rows are at level L, from any state whose hidden
+   level is not above L: exactly the forest with every subtree whose root the filter hides cut off.  The result is again a
+   forest with the same levels (every printed row sits under its own parent, which is printed too); a row is printed iff
+   the filter admits it and every ancestor it has in f; show = all keeps everything; show = untrusted loses nothing the
+   filter admits when fully safe rows have only fully safe rows below them; a filter admitting every row keeps everything *)
+Theorem C13_hidden_subtrees_cut :
+  (forall sh f L h, levelled L f -> loose L h -> shown sh h (flat f) = flat (prune sh f))
+  /\ (forall sh f L, levelled L f -> levelled L (prune sh f))
+  /\ (forall sh f x, In x (flat (prune sh f)) <-> kept sh f x)
+  /\ (forall f, prune ShowAll f = f)
+  /\ (forall f, safe_closed f -> flat (prune ShowUntrusted f) = filter (fun x => negb (r_safe x)) (flat f))
+  /\ (forall sh f, Forall (fun x => visible sh x = true) (flat f) -> prune sh f = f).
+Proof.
+  split; [intros sh f L h H1 H2; exact (proj1 (shown_forest sh f L h H1 H2))|].
+  split; [exact prune_levelled|]. split; [intros sh f x; apply kept_flat|]. split; [exact prune_all|].
+  split; [exact prune_untrusted|exact prune_id].
+Qed.
+Print Assumptions C13_hidden_subtrees_cut.
 
 (* every row carries the audit's own verdicts for its node: its self-safety flag is is_self_safe(),
    and it is marked fully safe exactly when the audit of the graph below it reports nothing *)
@@ -121,8 +165,9 @@ Definition dump_env (a : archive) : env :=
   {| e_reg := Snapshot.registry; e_cur := Snapshot.current; e_classes := Snapshot.classes; e_unavailable := Snapshot.unavailable;
      e_members := map fst (a_members a); e_resolve := [] |}.
 
-(* The full statement (kept visible; FALSE for show = trusted, see C13_total_on_dumps_trusted_refuted, finding D24):
-   every archive dumps writes is visualized to the end, whatever `trusted` and `show` are. *)
+(* The full statement (kept visible): every archive dumps writes is visualized to the end, whatever `trusted` and `show`
+   are.  Proved below for every value of the C05 fragment and ALL THREE show modes (C13_total_on_dumps_partial; the guard is
+   the fragment, no longer the show mode: finding D24 is repaired, its former witness is C13_trusted_witness_repaired). *)
 Definition C13_total_on_dumps_full_statement : Prop :=
   forall (D : denv) (base : Z) (v : pval) (a : archive) (T : trust) (sh : show_mode),
     dn_cur D = Snapshot.current -> dumps_model D base v = Ok a ->
@@ -133,42 +178,50 @@ Definition C13_total_on_dumps_full_statement : Prop :=
    matrices; dtypes; masked arrays; RandomState / Generator; functools.partial; bytes / bytearray; rank-1 object arrays;
    arbitrary sharing of sub-objects; nesting depth below get_tree's fuel), every load environment E with this run's registry and protocol and the archive's member
    list (whatever the node classes' default-trusted names are), every skipped-kind list containing SliceNode, and EVERY
-   trusted list T:
+   trusted list T there are a root row r (level 0) and a pre-order forest f of rows at levels >= 1 (first child / next
+   sibling; fully safe rows have only fully safe rows below them) such that
    - the row generator handed to a custom sink runs to the end (no exception: no missing reference, no RecursionError, no
-     KeyError on a childless DictNode, no error from format() / is_self_safe() / is_safe(), model fuel not exhausted);
-   - the default sink completes for show = "all" and prints exactly those rows;
-   - the default sink completes for show = "untrusted" and prints the root and exactly the rows that are not fully safe
-     (a row that is not fully safe has only not-fully-safe ancestors: the audit of a node includes the audits of its parts);
-   - the default sink completes for show = "trusted" when every row below the root is self-safe (e.g. all names trusted).
+     KeyError on a childless DictNode, no error from format() / is_self_safe() / is_safe(), model fuel not exhausted) and
+     yields r followed by the rows of f;
+   - the default sink completes for EVERY show mode and prints r followed by f with the subtrees of hidden rows cut off
+     (prune: C13_hidden_subtrees_cut says what that is: a row is printed iff the filter admits it and all its ancestors in f);
+   - show = "all": exactly those rows;
+   - show = "untrusted": r and exactly the rows that are not fully safe (a hidden row is fully safe, and so is everything
+     below it: the audit of a node includes the audits of its parts);
+   - show = "trusted": r and the rows whose own type is trusted and whose ancestors below the root all are (no premise
+     on the rows any more: before the repair of D24 this raised ValueError as soon as an untrusted row had a trusted child).
    Method: coq/io/VisTotalFacts.v (ranks on the tree built from a dumped state, bounded depth through references, walk
-   yields a safe-closed pre-order forest, _traverse_tree accepts it). *)
+   yields a safe-closed pre-order forest below the root row), coq/io/WalkFacts.v (_traverse_tree accepts every pre-order
+   stream under every filter and cuts the hidden subtrees). *)
 Theorem C13_total_on_dumps_partial :
   forall (F : cfacts) (D : denv) (base : Z) (v : pval) (E : env) (a : archive) (skipped : list pstr) (T : trust),
     e_cur E = dn_cur D -> reg_ok (e_reg E) (e_cur E) = true -> facts_sane F = true ->
     c05_guard F D base v = true -> dumps_model D base v = Ok a -> e_members E = map fst (a_members a) ->
     mem (s "_general.SliceNode") skipped = true ->
-    exists r rs,
-      visualize_rows E skipped (a_schema a) T = Ok (r :: rs)
-      /\ visualize E skipped (a_schema a) T ShowAll = Ok (r :: rs)
-      /\ visualize E skipped (a_schema a) T ShowUntrusted = Ok (r :: filter (fun x => negb (r_safe x)) rs)
-      /\ r_level r = O
-      /\ (Forall (fun x => r_self_safe x = true) rs -> visualize E skipped (a_schema a) T ShowTrusted = Ok (r :: rs)).
+    exists r f,
+      visualize_rows E skipped (a_schema a) T = Ok (r :: flat f)
+      /\ r_level r = O /\ levelled 1 f /\ safe_closed f
+      /\ (forall sh, visualize E skipped (a_schema a) T sh = Ok (r :: flat (prune sh f)))
+      /\ visualize E skipped (a_schema a) T ShowAll = Ok (r :: flat f)
+      /\ visualize E skipped (a_schema a) T ShowUntrusted = Ok (r :: filter (fun x => negb (r_safe x)) (flat f))
+      /\ visualize E skipped (a_schema a) T ShowTrusted = Ok (r :: flat (prune ShowTrusted f)).
 Proof. exact (fun F D base v E a skipped T H1 H2 H3 H4 H5 H6 H7 => visualize_total_dumped F D base v E a H1 H2 H3 H4 H5 H6 skipped H7 T). Qed.
 Print Assumptions C13_total_on_dumps_partial.
 
-(* ... in particular in this run's environment (Snapshot registry / protocol / node classes / SKIPPED_TYPES) *)
+(* ... in particular in this run's environment (Snapshot registry / protocol / node classes / SKIPPED_TYPES): the full
+   statement restricted to the fragment *)
 Theorem C13_total_on_dumps_here_partial :
-  forall (F : cfacts) (D : denv) (base : Z) (v : pval) (a : archive) (T : trust),
+  forall (F : cfacts) (D : denv) (base : Z) (v : pval) (a : archive) (T : trust) (sh : show_mode),
     dn_cur D = Snapshot.current -> facts_sane F = true -> c05_guard F D base v = true -> dumps_model D base v = Ok a ->
-    exists r rs,
-      visualize_rows (dump_env a) Snapshot.skipped (a_schema a) T = Ok (r :: rs)
-      /\ visualize (dump_env a) Snapshot.skipped (a_schema a) T ShowAll = Ok (r :: rs)
-      /\ visualize (dump_env a) Snapshot.skipped (a_schema a) T ShowUntrusted = Ok (r :: filter (fun x => negb (r_safe x)) rs)
-      /\ r_level r = O
-      /\ (Forall (fun x => r_self_safe x = true) rs -> visualize (dump_env a) Snapshot.skipped (a_schema a) T ShowTrusted = Ok (r :: rs)).
+    exists r f,
+      visualize_rows (dump_env a) Snapshot.skipped (a_schema a) T = Ok (r :: flat f)
+      /\ r_level r = O /\ levelled 1 f
+      /\ visualize (dump_env a) Snapshot.skipped (a_schema a) T sh = Ok (r :: flat (prune sh f)).
 Proof.
-  exact (fun F D base v a T H1 H2 H3 H4 =>
-           visualize_total_dumped F D base v (dump_env a) a (eq_sym H1) C13_loaders_registered H2 H3 H4 eq_refl Snapshot.skipped C13_slices_skipped T).
+  intros F D base v a T sh H1 H2 H3 H4.
+  destruct (visualize_total_dumped F D base v (dump_env a) a (eq_sym H1) C13_loaders_registered H2 H3 H4 eq_refl Snapshot.skipped C13_slices_skipped T)
+    as [r [f [A [B [C [_ [G _]]]]]]].
+  exists r, f. split; [exact A|]. split; [exact B|]. split; [exact C|apply G].
 Qed.
 Print Assumptions C13_total_on_dumps_here_partial.
 
@@ -224,25 +277,32 @@ Example C13_total_nonvacuous_bytes :
            (2, s "<bytes>"); (2, s "json-type(1)"); (2, s "builtins.tuple"); (3, s "json-type(2)"); (1, s "json-type(2)")]%nat.
 Proof. repeat split; vm_compute; reflexivity. Qed.
 
-(* D24 (open): show = "trusted" hides a node whose own type is untrusted but still emits its trusted children one level
-   deeper; _traverse_tree then meets a level difference below -1 and raises ValueError.  Witness: [partial(np.add, 1)]
-   (a value of the proved fragment), no trusted list: rows list(0) partial(1, hidden) func(2) ... *)
-Theorem C13_total_on_dumps_trusted_refuted :
-  exists (D : denv) (base : Z) (v : pval) (a : archive) (T : trust),
-    dn_cur D = Snapshot.current /\ c05_guard wf D base v = true /\ dumps_model D base v = Ok a
-    /\ visualize (dump_env a) Snapshot.skipped (a_schema a) T ShowTrusted = Raise EValue
-    /\ (exists rows, visualize (dump_env a) Snapshot.skipped (a_schema a) T ShowAll = Ok rows).
-Proof.
-  destruct (dumps_model (wd Snapshot.current) wbase (plist 1 [wpartial 30])) as [a|e] eqn:Ed; [|vm_compute in Ed; discriminate Ed].
-  exists (wd Snapshot.current), wbase, (plist 1 [wpartial 30]), a, None.
-  split; [reflexivity|]. split; [vm_compute; reflexivity|]. split; [exact Ed|].
-  vm_compute in Ed. injection Ed as <-. split; [vm_compute; reflexivity|]. eexists. vm_compute. reflexivity.
-Qed.
-Print Assumptions C13_total_on_dumps_trusted_refuted.
+(* D24 (repaired): show = "trusted" hides a node whose own type is untrusted; its trusted children used to be emitted one
+   level deeper, _traverse_tree then met a level difference below -1 and raised ValueError.  The former witness
+   [partial(np.add, 1)] (a value of the proved fragment), no trusted list: rows list(0) partial(1, hidden) func(2) tuple(2)
+   1(3) dict(2) None(2) -- now completes and prints the root row only (everything below the hidden partial is skipped);
+   with the partial trusted all seven rows are printed; in the larger witness wvis the partial (row 10) and the four rows
+   below it disappear, its siblings stay *)
+Theorem C13_trusted_witness_repaired :
+  c05_guard wf (wd Snapshot.current) wbase (plist 1 [wpartial 30]) = true
+  /\ brief (rows_of (plist 1 [wpartial 30]) None)
+     = Ok [(0, true, false); (1, false, false); (2, true, true); (2, true, true); (3, true, true); (2, true, true); (2, true, true)]%nat
+  /\ brief (vis_of (plist 1 [wpartial 30]) None ShowTrusted) = Ok [(0%nat, true, false)]
+  /\ brief (vis_of (plist 1 [wpartial 30]) None ShowUntrusted) = Ok [(0, true, false); (1, false, false)]%nat
+  /\ vis_of (plist 1 [wpartial 30]) (Some [s "functools.partial"]) ShowTrusted = rows_of (plist 1 [wpartial 30]) (Some [s "functools.partial"])
+  /\ brief (vis_of wvis None ShowTrusted)
+     = Ok [(0, true, false); (1, true, true); (2, true, true); (2, true, true); (1, true, true); (2, true, true); (3, true, true);
+           (3, true, true); (2, true, true); (1, true, true); (2, true, true); (2, true, true)]%nat.
+Proof. repeat split; vm_compute; reflexivity. Qed.
+Print Assumptions C13_trusted_witness_repaired.
 
-Theorem C13_total_on_dumps_refuted : ~ C13_total_on_dumps_full_statement.
-Proof.
-  intros H. destruct C13_total_on_dumps_trusted_refuted as [D [base [v [a [T [H1 [_ [H2 [H3 _]]]]]]]]].
-  destruct (H D base v a T ShowTrusted H1 H2) as [rows Hr]. rewrite H3 in Hr. discriminate Hr.
-Qed.
-Print Assumptions C13_total_on_dumps_refuted.
+(* the same on bare row lists (levels only): a hidden row takes its whole subtree with it, the next row at its level or
+   above is looked at again; a stream that is NOT a pre-order walk (0, 2) still meets the ValueError, which stays in the code *)
+Definition lrow (l : nat) (ss : bool) : row :=
+  {| r_level := l; r_key := []; r_val := []; r_self_safe := ss; r_safe := ss; r_last := false |}.
+Example C13_traverse_examples :
+  (do l <- traverse_all ShowTrusted (s_ok [lrow 0 true; lrow 1 false; lrow 2 true; lrow 3 false; lrow 2 true; lrow 1 true; lrow 2 true]);
+   Ok (map r_level l)) = Ok [0; 1; 2]%nat
+  /\ (do l <- traverse_all ShowTrusted (s_ok [lrow 0 false; lrow 1 true; lrow 2 false; lrow 3 true; lrow 2 true]); Ok (map r_level l)) = Ok [0; 1; 2]%nat
+  /\ traverse_all ShowAll (s_ok [lrow 0 true; lrow 2 true]) = Raise EValue.
+Proof. repeat split; vm_compute; reflexivity. Qed.
